@@ -145,37 +145,37 @@ def mapGet (key : Int) : GoMap → Option Int
   | [] => none
   | (k, v) :: r => if k = key then some v else mapGet key r
 
-/-- `for _, m := range mapSlice { mapped := FindByKey(m, k == key); if _, ok := mapped[key]; ok { if mapped[key] < min { min = mapped[key] } } }` -/
-def minByKeyLoop (key : Int) : List GoMap → Int → Int
-  | [], mn => mn
-  | m :: r, mn =>
+/-- `for _, m := range mapSlice { mapped := FindByKey(m, k == key); if _, ok := mapped[key]; ok { if !found || mapped[key] < min { min = mapped[key] }; found = true } }` -/
+def minByKeyLoop (key : Int) : List GoMap → Bool → Int → Bool × Int
+  | [], found, mn => (found, mn)
+  | m :: r, found, mn =>
     match mapGet key (FindByKey (fun k => k == key) m) with
-    | some v => if v < mn then minByKeyLoop key r v else minByKeyLoop key r mn
-    | none => minByKeyLoop key r mn
+    | some v => if !found || decide (v < mn) then minByKeyLoop key r true v else minByKeyLoop key r true mn
+    | none => minByKeyLoop key r found mn
 
-def maxByKeyLoop (key : Int) : List GoMap → Int → Int
-  | [], mx => mx
-  | m :: r, mx =>
+def maxByKeyLoop (key : Int) : List GoMap → Bool → Int → Bool × Int
+  | [], found, mx => (found, mx)
+  | m :: r, found, mx =>
     match mapGet key (FindByKey (fun k => k == key) m) with
-    | some v => if v > mx then maxByKeyLoop key r v else maxByKeyLoop key r mx
-    | none => maxByKeyLoop key r mx
+    | some v => if !found || decide (v > mx) then maxByKeyLoop key r true v else maxByKeyLoop key r true mx
+    | none => maxByKeyLoop key r found mx
 
-/-- result: `(isErr, value)` -/
+/-- result: `(isErr, value)`: "empty collection" for the empty slice, "key not found" when no map holds the key -/
 def FindMinByKey (mapSlice : List GoMap) (key : Int) : Bool × Int :=
   match mapSlice with
   | [] => (true, 0)                                   -- "empty collection"
-  | m0 :: _ =>
-    match mapGet key m0 with
-    | none => (true, 0)                               -- "key not found"
-    | some v0 => (false, minByKeyLoop key mapSlice v0)
+  | _ :: _ =>
+    match minByKeyLoop key mapSlice false 0 with
+    | (false, _) => (true, 0)                         -- "key not found" (min is still the zero value)
+    | (true, mn) => (false, mn)
 
 def FindMaxByKey (mapSlice : List GoMap) (key : Int) : Bool × Int :=
   match mapSlice with
   | [] => (true, 0)
-  | m0 :: _ =>
-    match mapGet key m0 with
-    | none => (true, 0)
-    | some v0 => (false, maxByKeyLoop key mapSlice v0)
+  | _ :: _ =>
+    match maxByKeyLoop key mapSlice false 0 with
+    | (false, _) => (true, 0)
+    | (true, mx) => (false, mx)
 
 /-! ## math.go: Abs, Clamp, InRange; generic.go: Compare, Equal, Less -/
 
